@@ -78,6 +78,17 @@ def sym_scalar(ob, kind, name='c'):
         ob.ex.register_arg(t, name)
         ob.describe(name, {'kind': 'tensor0', 'value': v, 'dtype': 'float32', 'representable32': True})
         return t, Term.of(v)
+    if kind == 'tensor1_f64':
+        # a double precision tensor of shape (1,) (value representable in float32) used with operands of any dtype: as a *dimensioned*
+        # tensor it takes part in torch's dtype promotion, so `float32 core op it` is float64 -- the operators must treat it as a scalar
+        from ttvc import terms as _terms
+        v = z3.Real(name)
+        t = STensor([T.Axis(1)], 'float64', lambda idx: Term.of(v))
+        t.name = name
+        ob.ex.assume(_terms.R32(v) == v)
+        ob.ex.register_arg(t, name)
+        ob.describe(name, {'kind': 'tensor1', 'value': v, 'dtype': 'float64', 'representable32': True})
+        return t, Term.of(v)
     if kind in ('tensor0', 'tensor1'):
         v = z3.Real(name)
         # the scalar tensor has the dtype of the TT operand (mixed-dtype promotion is not part of the property)
